@@ -7,9 +7,14 @@
 //!   compactions or when nothing is selectable (compaction thread).  The loop bodies are the real
 //!   ones; only "wait" is replaced by "return to caller".
 //! * observers: the compactions selected on this thread, an event log with a global order.
+//! * pause points: `point(tag, args)` records the event and then calls the hook installed with
+//!   `set_pause_hook` (none by default) on the emitting thread, right there and holding whatever
+//!   the thread holds.  The hook may yield or sleep to widen a window, or park the thread until a
+//!   directed schedule lets it go on (only at points outside the store's mutex; the points inside
+//!   it are the tags ending in `.locked`).
 
 use std::cell::{Cell, RefCell};
-use std::sync::Mutex;
+use std::sync::{Arc, Mutex, RwLock};
 use std::sync::atomic::{AtomicU64, Ordering};
 
 thread_local! {
@@ -114,4 +119,34 @@ pub fn emit(tag: &'static str, args: [u64; 3]) {
 
 pub fn take_events() -> Vec<(u64, u64, &'static str, [u64; 3])> {
     std::mem::take(&mut *EVENTS.lock().unwrap())
+}
+
+/// What a pause point calls: `(tag, args)` of the point the calling thread has reached.
+pub type PauseHook = Arc<dyn Fn(&'static str, [u64; 3]) + Send + Sync>;
+
+static PAUSE_ON: AtomicU64 = AtomicU64::new(0);
+static PAUSE_HOOK: RwLock<Option<PauseHook>> = RwLock::new(None);
+
+/// Install (or remove) the hook that runs at every pause point.
+pub fn set_pause_hook(hook: Option<PauseHook>) {
+    let mut h = PAUSE_HOOK.write().unwrap();
+    PAUSE_ON.store(hook.is_some() as u64, Ordering::SeqCst);
+    *h = hook;
+}
+
+/// A pause point without an event.
+pub fn pause(tag: &'static str, args: [u64; 3]) {
+    if PAUSE_ON.load(Ordering::SeqCst) == 0 {
+        return;
+    }
+    let hook = PAUSE_HOOK.read().unwrap().clone();
+    if let Some(hook) = hook {
+        hook(tag, args);
+    }
+}
+
+/// Record the event, then pause.
+pub fn point(tag: &'static str, args: [u64; 3]) {
+    emit(tag, args);
+    pause(tag, args);
 }
